@@ -5,6 +5,12 @@ V = os.path.dirname(os.path.dirname(os.path.abspath(__file__)))
 IDX = {}
 
 
+# harnesses whose body only exists under Kani (recorder stubs / uninterpreted estimator / wait stub)
+KANI_ONLY = {"c06_new_wiring", "c19_async_new_wiring", "c10_wait_barrier", "c10_wait_vs_clear", "c10_wait_inflight",
+             "c13_tinylfu_new", "c07_add_rule_n2", "c07_add_rule_n3", "c17_add_metrics_n2", "c17_add_metrics_n3",
+             }
+
+
 def P(pid, assumptions=()):
     IDX[pid] = {"assumptions": list(assumptions), "harnesses": []}
 
@@ -13,6 +19,8 @@ def H(pid, name, module, functions, bounds, tier="quick", timeout=600, mem_gb=16
     d = {"name": name, "module": ("verif_harness" if module == "crate" else module + "::verif_harness"), "tier": tier, "timeout": timeout, "mem_gb": mem_gb,
          "functions": functions, "bounds": bounds}
     d.update(kw)
+    if d.get("alias_of", name) in KANI_ONLY or name in KANI_ONLY:
+        d["native"] = False
     if "module_override" in d:
         d["module"] = d.pop("module_override")
     IDX[pid]["harnesses"].append(d)
@@ -34,6 +42,9 @@ TLF = ["TinyLFU::increment", "TinyLFU::estimate", "TinyLFU::try_reset", "TinyLFU
 H("C13", "c13_tinylfu_step_w1", "policy", TLF, "arbitrary TinyLFU: 4x1-byte sketch, 64-bit doorkeeper with 1..3 probes, arbitrary w < samples <= 2^32; two arbitrary hashes; one operation")
 H("C13", "c13_tinylfu_step_w4", "policy", TLF, "arbitrary TinyLFU: 4x4-byte sketch, 512-bit doorkeeper with 1..3 probes, arbitrary w < samples; two arbitrary hashes; one operation", timeout=900)
 H("C13", "c13_tinylfu_batch", "policy", ["TinyLFU::increments"] + TLF, "cleared TinyLFU (4x4-byte sketch, 512-bit doorkeeper, 2 probes, samples > 4), batch of 4 arbitrary hashes", timeout=900)
+
+H("C13", "c13_tinylfu_batch_reset", "policy", TLF + ["TinyLFU::increments"], "cleared TinyLFU with aging period 1..3, batch of 4 arbitrary hashes: the aging reset fires inside the batch", timeout=900)
+H("C13", "c13_tinylfu_new", "policy", ["TinyLFU::new", "CountMinSketch::new", "TinyLFU::increment", "TinyLFU::estimate"], "num_counters symbolic in [1, 65536]; Bloom::new replaced by a literal 64-bit filter (its float sizing is not decidable); RNG stubbed", timeout=900)
 
 # ------------------------------------------------------------------ C14
 P("C14", ["the statistical clause (false-positive fraction within a constant factor of p) is not a solver-decidable statement; what is decided are membership and the structural premises of the textbook bound: all m bits individually addressable, each add sets exactly the prescribed <= k positions, geometry (m, k) consistent",
@@ -149,6 +160,7 @@ H("C08", "c08_client_insert", "cache::sync", CLI, CB2 + "; asserts the callback 
 H("C16", "c16_client_insert", "cache::sync", CLI, CB2 + "; asserts the queued cost (explicit or Coster)", timeout=1800, cover_tags=["client"])
 REM = ["Cache::try_remove", "Cache::get", "ShardedMap::try_remove", "CacheProcessor::handle_item(Delete)", "LFUPolicy::remove"]
 H("C08", "c08_client_remove", "cache::sync", REM, "arbitrary quiescent state with <= 2 residents (no TTL); remove of an arbitrary key, then the queued Delete is processed; callback accounting", timeout=1800, cover_tags=["client"])
+H("C08", "c08_remove_full_buffer", "cache::sync", ["Cache::try_remove", "ShardedMap::try_remove", "CacheCallback::on_exit (call site)"], "insert buffer of size 1 already full; <= 1 resident; remove of an arbitrary key", timeout=1800)
 H("C06", "c06_client_remove", "cache::sync", REM, "arbitrary quiescent state with <= 2 residents (no TTL); remove of an arbitrary key, then the queued Delete is processed; I-SP", timeout=1800, cover_tags=["client"])
 
 # ---- C11
@@ -182,6 +194,7 @@ H("C10", "c10_wait_full_buffer", "cache::sync", WF, "insert buffer of size 1 alr
 # ---- C15
 P("C15", CACHE_ASS + ["the body of LFUPolicy::push is a crossbeam select! that Kani cannot compile; in c15_ring_batches / c15_get_records push is replaced by a recorder that notes every handed-over batch and answers kept / dropped / error as the solver chooses. The kept/dropped accounting inside push (KeepGets / DropGets) and the bounded(3) queue itself are outside the claim"])
 H("C15", "c15_ring_batches", "ring", ["RingStripe::new", "RingStripe::push"], "buffer_items symbolic in 0..3, 1..5 lookups of arbitrary keys, arbitrary answers of the policy", timeout=1200)
+H("C15", "c15_batch_reset", "policy", TLF + ["TinyLFU::increments"], "a flushed batch of 4 keys applied across an aging reset (period 1..3): no key of the batch is lost", timeout=900, alias_of="c13_tinylfu_batch_reset")
 H("C15", "c15_worker_applies", "policy::sync", ["PolicyProcessor::handle_items", "TinyLFU::increments", "TinyLFU::increment", "TinyLFU::estimate"], "cleared TinyLFU (4x4-byte sketch, 512-bit doorkeeper, 1..3 probes, samples > 4), batch of 1..3 arbitrary keys, or a receive error", timeout=1200)
 H("C15", "c15_get_records", "cache::sync", ["Cache::get", "Cache::get_mut", "RingStripe::push", "Metrics::add (call sites)"], "buffer_items = 1, <= 1 resident, arbitrary key, get or get_mut, then the same on a closed cache", timeout=1800)
 # ---- C17
